@@ -99,9 +99,23 @@ def gen_one(rng, tier, scale=False):
                              # handlers that evaluate false (an empty
                              # container, a zero counter)
                              'falsy', 'empty'])
+        # the very decorator OBJECT of an earlier decorated class is used
+        # again for this one (same own events, other bases)
+        same_as = None
+        if decorated and not scale and rng.random() < 0.15:
+            earlier = [j for j, c in enumerate(classes) if c['decorated']
+                       and set(c['names']) | set(c['maps'].values())
+                       <= avail | methods | set(c['methods'])]
+            if earlier:
+                same_as = rng.choice(earlier)
+                names = list(classes[same_as]['names'])
+                maps = dict(classes[same_as]['maps'])
+                methods |= set(names) | set(maps.values())
+                avail |= methods
+                defined[-1] = avail
         classes.append({'base': base, 'decorated': decorated, 'names': names,
                         'maps': maps, 'methods': sorted(methods), 'eq': eq,
-                        'base2': base2})
+                        'base2': base2, 'same_as': same_as})
     nh = rng.randint(1, 8 if big else 5) if not scale else 90
     handlers = [rng.randrange(ncls) for _ in range(nh)]
     # a handler may carry its own mapping (instance attribute __events__)
@@ -214,6 +228,7 @@ def run_case(case):
 
     # ---- classes from recipes; expected mapping computed by the harness
     classes, mapping, definer, snapshots = [], [], [], []
+    decorators = {}
 
     def make_method(ci, meth):
         def method(self, *args, **kwargs):
@@ -260,7 +275,14 @@ def run_case(case):
         cls = type(f'H{ci}', bases, ns)
         base_def = None
         if spec['decorated']:
-            cls2 = desper.event_handler(*spec['names'], **spec['maps'])(cls)
+            if spec.get('same_as') is not None \
+                    and spec['same_as'] in decorators:
+                deco = decorators[spec['same_as']]
+                flags.add('decorator-object-used-again')
+            else:
+                deco = desper.event_handler(*spec['names'], **spec['maps'])
+            decorators[ci] = deco
+            cls2 = deco(cls)
             if cls2 is not cls:
                 res.div(-1, 'decorator-identity', 'event_handler did not '
                         'return the decorated class', None, None)
